@@ -169,6 +169,8 @@ pub fn c14() -> TreeProp {
         let non_ascii = c.trees.iter().any(|t| crate::refmodel::ref_src(t).iter().any(|b| *b >= 128));
         if non_ascii && c.trees[0].has(&|x| matches!(x, T::Cached(..))) && (f.detail.contains("Map") || f.detail.contains("Stream")) { return Some("K4".into()) }
       }
+      // K5: a CachedSource beneath a ReplaceSource replays coarser chunks than the call that filled it
+      if f.clause == "same-answer-each-time" || f.clause == "eq-implies-observers" { return crate::treeprops::k5(c, f, &c14_oracle) }
       None
     }),
     corpus: vec![],
